@@ -11,6 +11,7 @@ def matrix(path):
             m = re.match(r'^(\S+): reported_by:(.*?)\|', line)
             if m:
                 out[m.group(1)] = m.group(2).split()
+                out[m.group(1)] = [h for h in out[m.group(1)]]
     return out
 
 def title(d):
@@ -45,12 +46,12 @@ for name in sorted(os.listdir(os.path.join(root, 'seeded'))):
     if not os.path.isdir(d):
         continue
     prop = name.split('-')[0]
-    hits = sm.get(name, [])
-    own = 'yes' if prop in hits else ('?' if not hits else '**no**')
-    rl = rules_for(d, prop)
-    if rl and own == 'yes':
-        own = ', '.join(r.split('/')[1] for r in rl)
-    others = ' '.join(h for h in hits if h != prop)
+    hits = sm.get(name, None)
+    own, others = '?', ''
+    if hits is not None:
+        mine = [h for h in hits if h.startswith(prop)]
+        own = '**no**' if not mine else (mine[0][len(prop):].strip('[]') or 'yes')
+        others = ' '.join(h.split('[')[0] for h in hits if not h.startswith(prop))
     print('| %s | %s | %s | %s |' % (name, title(d).replace('|', '/'), own, others or '—'))
 print()
 rm = matrix(os.path.join(root, 'refactors', 'MATRIX.txt'))
